@@ -64,9 +64,41 @@ type Unsendable struct {
 	C chan int `json:"c"`
 }
 
-const nTypes = 4 // Go types 0..3 of each family; type 4 = Unsendable (bus only)
+// Changed is a generic event/command type; its two instantiations (Go types 5 and 6, JSON family only) are different Go
+// types whose %T differs only in the type argument: main.Changed[main.OrderPlaced] / main.Changed[main.UserCreated].
+type Changed[T any] struct {
+	ID    string `json:"id"`
+	Value T      `json:"value"`
+}
 
-var jsonTypeNames = []string{"OrderPlaced", "OrderShipped", "UserCreated", "Ping", "Unsendable"}
+const nTypes = 4 // Go types 0..3 of each family; type 4 = Unsendable (bus only); 5, 6 = instantiations of Changed (JSON only)
+
+// famTypes lists the Go types of a family that can be marshalled.
+func famTypes(marsh byte) []int {
+	if marsh == 'j' {
+		return []int{0, 1, 2, 3, 5, 6}
+	}
+	return []int{0, 1, 2, 3}
+}
+
+// nDec is the length of the decode table of a message (indexed by Go type; Unsendable never decodes).
+func nDec(marsh byte) int {
+	if marsh == 'j' {
+		return 7
+	}
+	return nTypes
+}
+
+func validType(marsh byte, ty int) bool {
+	for _, t := range famTypes(marsh) {
+		if t == ty {
+			return true
+		}
+	}
+	return false
+}
+
+var jsonTypeNames = []string{"OrderPlaced", "OrderShipped", "UserCreated", "Ping", "Unsendable", "Changed[main.OrderPlaced]", "Changed[main.UserCreated]"}
 var protoTypeNames = []string{"StringValue", "BytesValue", "Int64Value", "Duration", "Unsendable"}
 
 func newValue(marsh byte, ty int) interface{} {
@@ -83,6 +115,10 @@ func newValue(marsh byte, ty int) interface{} {
 			return &UserCreated{}
 		case 3:
 			return &Ping{}
+		case 5:
+			return &Changed[OrderPlaced]{}
+		case 6:
+			return &Changed[UserCreated]{}
 		}
 	} else {
 		switch ty {
@@ -122,6 +158,10 @@ func mkValue(marsh byte, ty int, seed uint64) interface{} {
 			return &UserCreated{Who: words[r.Intn(len(words))], Age: uint8(r.Intn(256))}
 		case 3:
 			return &Ping{}
+		case 5:
+			return &Changed[OrderPlaced]{ID: words[r.Intn(len(words))], Value: OrderPlaced{ID: words[r.Intn(len(words))], Qty: r.Intn(2000) - 1000}}
+		case 6:
+			return &Changed[UserCreated]{ID: words[r.Intn(len(words))], Value: UserCreated{Who: words[r.Intn(len(words))], Age: uint8(r.Intn(256))}}
 		}
 	} else {
 		switch ty {
@@ -190,12 +230,16 @@ func typeIndex(v interface{}) int {
 		return 3
 	case *Unsendable, Unsendable:
 		return 4
+	case *Changed[OrderPlaced], Changed[OrderPlaced]:
+		return 5
+	case *Changed[UserCreated], Changed[UserCreated]:
+		return 6
 	}
 	return -1
 }
 
-var caseNames = []string{"evt", "EVT", "Evt", "evt", "eVt"}      // differ only in case; 0 and 3 collide
-var foldNames = []string{"k", "K", "ſ", "s", "S"}       // Kelvin sign / long s: equal only under Unicode case folding
+var caseNames = []string{"evt", "EVT", "Evt", "evt", "eVt", "EVt", "evT"}      // differ only in case; 0 and 3 collide
+var foldNames = []string{"k", "K", "ſ", "s", "S", "ss", "ß"} // Kelvin sign / long s: equal only under Unicode case folding
 
 // genFunc is the GenerateName handed to the marshaler; nil = the default (FullyQualifiedStructName).
 func genFunc(gen int) func(v interface{}) string {
@@ -224,6 +268,21 @@ func wantName(marsh byte, gen, ty int) string {
 		pkg, tn = "wrapperspb", protoTypeNames[ty]
 		if ty == 3 {
 			pkg = "durationpb"
+		}
+	}
+	if ty == 5 || ty == 6 {
+		// %T of an instantiated generic type carries the type argument: "main.Changed[main.OrderPlaced]".  StructName keeps
+		// what follows the last dot (the documented "[type name]" of a plain struct; for an instantiation the tail of the
+		// type argument) – in any case the two instantiations are two types with two names.
+		arg := "OrderPlaced"
+		if ty == 6 {
+			arg = "UserCreated"
+		}
+		switch gen {
+		case 0:
+			return "main.Changed[main." + arg + "]"
+		case 1, 2:
+			return arg + "]"
 		}
 	}
 	switch gen {
@@ -657,7 +716,8 @@ func genBusSeq(rng *wh.Rng, cmd bool, marsh byte, gen int, mode byte) busSeqCase
 		b.mod = "nnnoe"[rng.Intn(5)]
 	}
 	n := 2 + rng.Intn(5)
-	t0, t1 := rng.Intn(nTypes), rng.Intn(nTypes)
+	ft := famTypes(marsh)
+	t0, t1 := ft[rng.Intn(len(ft))], ft[rng.Intn(len(ft))]
 	for i := 0; i < n; i++ {
 		ty := t0
 		switch rng.Intn(8) {
@@ -861,6 +921,10 @@ func (r *procRun) commandHandler(idx, ty int) cqrs.CommandHandler {
 			return cqrs.NewCommandHandler(n, handleFn[UserCreated](r, idx))
 		case 3:
 			return cqrs.NewCommandHandler(n, handleFn[Ping](r, idx))
+		case 5:
+			return cqrs.NewCommandHandler(n, handleFn[Changed[OrderPlaced]](r, idx))
+		case 6:
+			return cqrs.NewCommandHandler(n, handleFn[Changed[UserCreated]](r, idx))
 		}
 	} else {
 		switch ty {
@@ -889,6 +953,10 @@ func (r *procRun) eventHandler(idx, ty int) cqrs.EventHandler {
 			return cqrs.NewEventHandler(n, handleFn[UserCreated](r, idx))
 		case 3:
 			return cqrs.NewEventHandler(n, handleFn[Ping](r, idx))
+		case 5:
+			return cqrs.NewEventHandler(n, handleFn[Changed[OrderPlaced]](r, idx))
+		case 6:
+			return cqrs.NewEventHandler(n, handleFn[Changed[UserCreated]](r, idx))
 		}
 	} else {
 		switch ty {
@@ -916,6 +984,10 @@ func (r *procRun) groupHandler(idx, ty int) cqrs.GroupEventHandler {
 			return cqrs.NewGroupEventHandler(handleFn[UserCreated](r, idx))
 		case 3:
 			return cqrs.NewGroupEventHandler(handleFn[Ping](r, idx))
+		case 5:
+			return cqrs.NewGroupEventHandler(handleFn[Changed[OrderPlaced]](r, idx))
+		case 6:
+			return cqrs.NewGroupEventHandler(handleFn[Changed[UserCreated]](r, idx))
 		}
 	} else {
 		switch ty {
@@ -1065,9 +1137,11 @@ func (pc procCase) req() string {
 		sb.WriteString(".c")
 	}
 	for _, m := range pc.msgs {
-		dec := make([]string, nTypes)
-		for ty := 0; ty < nTypes; ty++ {
-			if v, ok := libDecode(pc.marsh, ty, m.payload); ok {
+		dec := make([]string, nDec(pc.marsh))
+		for ty := range dec {
+			if !validType(pc.marsh, ty) {
+				dec[ty] = "x"
+			} else if v, ok := libDecode(pc.marsh, ty, m.payload); ok {
 				dec[ty] = wh.Hex(v)
 			} else {
 				dec[ty] = "x"
@@ -1271,7 +1345,8 @@ func otherCase(s string) string {
 // genMsg builds one message of a stream for a registry.
 func genMsg(rng *wh.Rng, marsh byte, gen int, reg []int) procMsg {
 	pm := procMsg{md: map[string]string{}, sent: "-"}
-	ty := rng.Intn(nTypes)
+	ft := famTypes(marsh)
+	ty := ft[rng.Intn(len(ft))]
 	if len(reg) > 0 && rng.Intn(4) != 0 {
 		ty = reg[rng.Intn(len(reg))] // mostly a type somebody handles
 	}
@@ -1311,7 +1386,7 @@ func genMsg(rng *wh.Rng, marsh byte, gen int, reg []int) procMsg {
 		pm.payload = ml[rng.Intn(len(ml))]
 	default: // foreign: name of one type, payload of another
 		pm.class = "foreign"
-		oty := rng.Intn(nTypes)
+		oty := ft[rng.Intn(len(ft))]
 		pm.md["name"] = wantName(marsh, gen, oty)
 		pm.payload = m.Payload
 		if oty == ty {
@@ -1338,9 +1413,16 @@ func genMsg(rng *wh.Rng, marsh byte, gen int, reg []int) procMsg {
 	return pm
 }
 
-func genReg(rng *wh.Rng) []int {
+func genReg(rng *wh.Rng, marsh byte) []int {
 	n := 1 + rng.Intn(5)
 	reg := make([]int, n)
+	if marsh == 'j' && rng.Intn(5) == 0 {
+		// both instantiations of the generic type (and sometimes its type argument) side by side
+		for i := range reg {
+			reg[i] = []int{5, 6, 5, 6, 0}[rng.Intn(5)]
+		}
+		return reg
+	}
 	few := rng.Intn(2) == 0 // few distinct types: several handlers per type
 	for i := range reg {
 		if few {
@@ -1424,7 +1506,10 @@ func generate(out *wh.Out, a wh.Args) {
 	for _, cmd := range []bool{true, false} {
 		for _, marsh := range []byte{'j', 'p'} {
 			for gen := 0; gen < nGens; gen++ {
-				for ty := 0; ty <= 4; ty++ {
+				for ty := 0; ty <= 6; ty++ {
+					if ty != 4 && !validType(marsh, ty) {
+						continue
+					}
 					for _, topic := range topics {
 						for _, hook := range []byte{'n', 'o', 'e'} {
 							for _, mod := range []byte{'n', 'o', 'e'} {
@@ -1462,7 +1547,7 @@ func generate(out *wh.Out, a wh.Args) {
 				for _, marsh := range []byte{'j', 'p'} {
 					for gen := 0; gen < nGens; gen++ {
 						for k := 0; k < per; k++ {
-							pc := procCase{kind: kind, ackErr: fl&2 != 0, ackUnk: fl&1 != 0, oh: oh, marsh: marsh, gen: gen, reg: genReg(rng)}
+							pc := procCase{kind: kind, ackErr: fl&2 != 0, ackUnk: fl&1 != 0, oh: oh, marsh: marsh, gen: gen, reg: genReg(rng, marsh)}
 							for i := 0; i < nmsg; i++ {
 								pc.msgs = append(pc.msgs, genMsg(rng, marsh, gen, pc.reg))
 							}
@@ -1482,7 +1567,20 @@ func generate(out *wh.Out, a wh.Args) {
 	if thorough {
 		tableOH = []byte{'n', 'p'}
 	}
+	// pairs of Go types the table is built over: (0, 1) under the default names; for JSON also the two instantiations of the
+	// generic type under StructName
+	type tablePair struct {
+		marsh  byte
+		gen    int
+		t0, t1 int
+	}
+	var pairs []tablePair
 	for _, marsh := range tableMarsh {
+		pairs = append(pairs, tablePair{marsh, 0, 0, 1})
+	}
+	pairs = append(pairs, tablePair{'j', 1, 5, 6})
+	for _, tp := range pairs {
+		marsh, tys := tp.marsh, []int{tp.t0, tp.t1}
 		for _, kind := range []byte{'c', 'e', 'g'} {
 			for flo := 0; flo < 4*len(tableOH); flo++ {
 				fl, oh := flo%4, tableOH[flo/4]
@@ -1490,9 +1588,9 @@ func generate(out *wh.Out, a wh.Args) {
 					for shape := 0; shape < 1<<n; shape++ {
 						reg := make([]int, n)
 						for i := range reg {
-							reg[i] = (shape >> i) & 1
+							reg[i] = tys[(shape>>i)&1]
 						}
-						pc := procCase{kind: kind, ackErr: fl&2 != 0, ackUnk: fl&1 != 0, oh: oh, marsh: marsh, gen: 0, reg: reg}
+						pc := procCase{kind: kind, ackErr: fl&2 != 0, ackUnk: fl&1 != 0, oh: oh, marsh: marsh, gen: tp.gen, reg: reg}
 						for nameOf := 0; nameOf < 3; nameOf++ {
 							for payOf := 0; payOf < 3; payOf++ {
 								var outs []string
@@ -1510,15 +1608,15 @@ func generate(out *wh.Out, a wh.Args) {
 								for _, o := range outs {
 									pm := procMsg{md: map[string]string{}, sent: "-", outs: o, class: "table"}
 									if nameOf < 2 {
-										pm.md["name"] = wantName(marsh, 0, nameOf)
+										pm.md["name"] = wantName(marsh, tp.gen, tys[nameOf])
 									} else {
 										pm.md["name"] = "main.Nobody"
 									}
 									if payOf < 2 {
-										v := mkValue(marsh, payOf, uint64(7+payOf))
+										v := mkValue(marsh, tys[payOf], uint64(7+payOf))
 										pm.payload, _ = libEncode(marsh, v)
 										if nameOf == payOf {
-											pm.sent = fmt.Sprintf("%d.%s", payOf, wh.Hex(pm.payload))
+											pm.sent = fmt.Sprintf("%d.%s", tys[payOf], wh.Hex(pm.payload))
 										}
 									} else {
 										pm.payload = malformed[marsh][0]
@@ -1546,7 +1644,7 @@ func generate(out *wh.Out, a wh.Args) {
 				for _, marsh := range []byte{'j', 'p'} {
 					for gen := 0; gen < nGens; gen++ {
 						for k := 0; k < cper; k++ {
-							pc := procCase{kind: kind, ackErr: fl&2 != 0, ackUnk: fl&1 != 0, oh: oh, marsh: marsh, gen: gen, conc: true, reg: genReg(rng)}
+							pc := procCase{kind: kind, ackErr: fl&2 != 0, ackUnk: fl&1 != 0, oh: oh, marsh: marsh, gen: gen, conc: true, reg: genReg(rng, marsh)}
 							n := 2 + rng.Intn(4)
 							for i := 0; i < n; i++ {
 								pc.msgs = append(pc.msgs, genMsg(rng, marsh, gen, pc.reg))
@@ -1578,7 +1676,7 @@ func generate(out *wh.Out, a wh.Args) {
 	for _, kind := range []byte{'c', 'e'} {
 		for _, marsh := range []byte{'j', 'p'} {
 			for gen := 0; gen < nGens; gen++ {
-				pc := procCase{kind: kind, ackErr: false, ackUnk: kind == 'e', oh: 'n', marsh: marsh, gen: gen, dep: true, reg: genReg(rng)}
+				pc := procCase{kind: kind, ackErr: false, ackUnk: kind == 'e', oh: 'n', marsh: marsh, gen: gen, dep: true, reg: genReg(rng, marsh)}
 				for i := 0; i < nmsg; i++ {
 					pc.msgs = append(pc.msgs, genMsg(rng, marsh, gen, pc.reg))
 				}
@@ -1649,7 +1747,7 @@ func replay(out *wh.Out, line string) error {
 			ty, e1 := strconv.Atoi(vi[0])
 			seed, e2 := strconv.ParseUint(vi[1], 10, 64)
 			flag, e3 := strconv.Atoi(vi[2])
-			if e1 != nil || e2 != nil || e3 != nil || ty < 0 || ty > 4 || flag < 0 || flag > 1 {
+			if e1 != nil || e2 != nil || e3 != nil || (ty != 4 && !validType(b.marsh, ty)) || flag < 0 || flag > 1 {
 				return errors.New("busseq value")
 			}
 			b.sends = append(b.sends, busSend{ty: ty, seed: seed, flag: flag, pubOK: p[2] == "o"})
@@ -1670,7 +1768,7 @@ func replay(out *wh.Out, line string) error {
 				return errors.New("registry")
 			}
 			ty, err := strconv.Atoi(p[1])
-			if err != nil || ty < 0 || ty >= nTypes {
+			if err != nil || !validType(pc.marsh, ty) {
 				return errors.New("registry type")
 			}
 			pc.reg = append(pc.reg, ty)
@@ -1680,6 +1778,31 @@ func replay(out *wh.Out, line string) error {
 			if len(p) != 6 {
 				return errors.New("message")
 			}
+			if len(p[4]) != len(pc.reg) {
+				return errors.New("outcomes")
+			}
+			if strings.HasPrefix(p[0], "@") {
+				// corpus form "@<ty>.<seed>": the message the marshaler of the tree under test produces for that value
+				// (metadata and payload are whatever it writes; the request printed for the driver carries them)
+				vi := strings.Split(p[0][1:], ".")
+				if len(vi) != 2 {
+					return errors.New("marshalled message")
+				}
+				ty, e1 := strconv.Atoi(vi[0])
+				seed, e2 := strconv.ParseUint(vi[1], 10, 64)
+				if e1 != nil || e2 != nil || !validType(pc.marsh, ty) {
+					return errors.New("marshalled message value")
+				}
+				v := mkValue(pc.marsh, ty, seed)
+				m, err := marshaler(pc.marsh, pc.gen).Marshal(v)
+				if err != nil {
+					return err
+				}
+				canon, _ := libEncode(pc.marsh, v)
+				pc.msgs = append(pc.msgs, procMsg{md: map[string]string(m.Metadata), payload: m.Payload, stale: p[2] == "s", outs: p[4],
+					sent: fmt.Sprintf("%d.%s", ty, wh.Hex(canon)), class: "replay"})
+				continue
+			}
 			md, err := parseMetaTok(p[0])
 			if err != nil {
 				return err
@@ -1687,9 +1810,6 @@ func replay(out *wh.Out, line string) error {
 			pl, err := unhex(p[1])
 			if err != nil {
 				return err
-			}
-			if len(p[4]) != len(pc.reg) {
-				return errors.New("outcomes")
 			}
 			pc.msgs = append(pc.msgs, procMsg{md: md, payload: []byte(pl), stale: p[2] == "s", outs: p[4], sent: p[5], class: "replay"})
 		}
